@@ -327,6 +327,21 @@ def mainDone (s : St) : Bool :=
   | _ => false
 
 
+/-! ### a second `process()` on the same `Pipeline` object
+
+`pipeline.concurrency = k` (state `stopped`: only the number is stored) followed by the first step of a new
+`process()` call on the object a finished run left behind: the queue (left-over pills / item), the unfinished
+count and `Producer._running` are what they were; a new producer task is created. -/
+
+def restartSt (c : Cfg) (k : Nat) (s : St) : St :=
+  mainLoop c { s with conc := k, pstate := .running, prod := .start, stopReq := false,
+                      unpaused := if c.fx.pauseAtStart then decide (k > 0) else (decide (k > 0) || s.unpaused) }
+
+/-- steps of a history with several runs: `none` = process() again with concurrency `k` -/
+def stepR (c : Cfg) (s : St) : Act ⊕ Nat → Option St
+  | .inl a => step c s a
+  | .inr k => if s.main = .returned then some (restartSt c k s) else none
+
 /-! ### `Application.run()` over the pipeline series (`wpull/application/app.py`)
 
 ```
